@@ -80,14 +80,15 @@ Theorem C11_hpack_decode_sound :
                 (r_fields (decode hd d bs)) (abs (r_dec (decode hd d bs))).
 Proof. exact hpack_decode_sound. Qed.
 
-Theorem C11_hpack_decode_sound_rfc :
+(* ... including the 4.2 clause, except for known finding KF-C11-3 *)
+Theorem C11_hpack_decode_sound_rfc_except_known :
   forall hd d bs,
   wf d -> octets bs ->
-  tmax d <= d_last_max (take_queued d) ->
+  ~ required_update_pending d ->
   r_verdict (decode hd d bs) = VOk ->
   rfc_block_decodes hd h2_int_limit (abs (take_queued d)) bs
                     (r_fields (decode hd d bs)) (abs (r_dec (decode hd d bs))).
-Proof. exact hpack_decode_sound_rfc. Qed.
+Proof. exact hpack_decode_sound_rfc_except_known. Qed.
 
 (* whatever the RFC accepts (within h2's integer limit) with headers that pass the http-crate
    validation is accepted, with the same headers and table *)
@@ -110,25 +111,41 @@ Theorem C11_hpack_table_bounded :
   t_max (d_table d) <= max_limit size evs.
 Proof. exact hpack_table_bounded. Qed.
 
-Theorem C11_hpack_table_within_current_limit :
+(* within the limit in force, except for known finding KF-C11-3 *)
+Theorem C11_hpack_table_within_limit_except_known :
   forall hd d frags,
-  wf d -> t_max (d_table d) <= last_limit_of d ->
+  wf d -> ~ required_update_pending d ->
   let d' := r_dec (decode_chunks hd d frags) in
   t_size (d_table d') <= t_max (d_table d') /\ t_max (d_table d') <= d_last_max d'.
-Proof. exact hpack_table_within_current_limit. Qed.
+Proof. exact hpack_table_within_limit_except_known. Qed.
 
-(* fragments *)
-Theorem C11_hpack_chunking :
+(* fragments: same result as the whole block, except for known finding KF-C11-1 *)
+Theorem C11_hpack_chunking_except_known :
   forall hd d frags,
   frags <> [] ->
-  r_quirk (decode hd d (concat frags)) = QNone ->
+  ~ size_update_after_field hd d (concat frags) ->
   same_result (decode_chunks hd d frags) (decode hd d (concat frags)).
-Proof. exact hpack_chunking. Qed.
+Proof. exact hpack_chunking_except_known. Qed.
 
 Theorem C11_hpack_chunking_by_verdict :
   forall hd d frags,
   frags <> [] ->
   r_verdict (decode hd d (concat frags)) <> VErr InvalidMaxDynamicSize ->
-  r_verdict (decode hd d (concat frags)) <> VErr (NeedMore UnexpectedEndOfStream) ->
   same_result (decode_chunks hd d frags) (decode hd d (concat frags)).
 Proof. exact hpack_chunking_by_verdict. Qed.
+
+(* the exceptions are necessary: the unconditional statements are false *)
+Theorem C11_known_1_refuted :
+  ~ (forall (hd : list N -> option (list N)) d frags, frags <> [] ->
+       same_result (decode_chunks hd d frags) (decode hd d (concat frags))).
+Proof. exact known_1_refuted. Qed.
+
+Theorem C11_known_3_refuted :
+  ~ (forall (hd : list N -> option (list N)) size evs,
+       let d := run_events hd (decoder_new size) evs in
+       t_size (d_table d) <= d_last_max d) /\
+  ~ (forall (hd : list N -> option (list N)) d bs, wf d -> octets bs ->
+       r_verdict (decode hd d bs) = VOk ->
+       rfc_block_decodes hd h2_int_limit (abs (take_queued d)) bs
+                         (r_fields (decode hd d bs)) (abs (r_dec (decode hd d bs)))).
+Proof. exact known_3_refuted. Qed.
